@@ -957,6 +957,48 @@ def r8_ctor_definite_assignment(run):
                'definite assignment in %s.__init__' % cq)
 
 
+# ---------------------------------------------------------------------------
+# R9 the two simulated-request drivers percent-decode the path the same way
+# ---------------------------------------------------------------------------
+
+def r9_driver_path_decoding(run):
+    """A server percent-decodes the request path (a '+' in a path is a literal
+    plus; only query strings use '+' for space).  Both test drivers decode the
+    simulated path with falcon.util.uri.decode; they must do so with the same
+    effective `unquote_plus` value, and that value must be false.
+    W: simulate_get(asgi_app, '/files/C++-notes.txt') routes '/files/C  -notes.txt'."""
+    p = run.project
+    dec = p.func('falcon.util.uri.decode')
+    params = dec.params()
+    if 'unquote_plus' not in params:
+        raise AnchorError('uri.decode has no unquote_plus parameter')
+    idx = params.index('unquote_plus')
+    a = dec.node.args
+    defaults = dict(zip([x.arg for x in a.args][len(a.args) - len(a.defaults):], a.defaults))
+    dflt = p.fold(dec.module, defaults['unquote_plus'], None, None) if 'unquote_plus' in defaults else None
+    seen = {}
+    for q in ('falcon.testing.helpers.create_environ', 'falcon.testing.helpers.create_scope'):
+        f = p.func(q)
+        run.use(f)
+        calls = [c for c in walk_no_nested(f.node) if isinstance(c, ast.Call) and p.resolve_callable(f, c.func) is dec
+                 and c.args and isinstance(c.args[0], ast.Name) and c.args[0].id == 'path']
+        if len(calls) != 1:
+            raise UnknownIdiom('%s: expected one uri.decode(path, ...) call, found %d' % (q, len(calls)))
+        c = calls[0]
+        val = dflt
+        if len(c.args) > idx:
+            val = p.fold(f.module, c.args[idx], None, f)
+        for k in c.keywords:
+            if k.arg == 'unquote_plus':
+                val = p.fold(f.module, k.value, None, f)
+        seen[q] = (c, val)
+        run.check(val is False, '%s percent-decodes the simulated path without turning "+" into a space' % q.rsplit('.', 1)[1], f, c,
+                  runtime_witness="a literal '+' in the URL path reaches the app as a space through the test client but as '+' through a real server")
+    vals = {v for (_c, v) in seen.values()}
+    run.check(len(vals) == 1, 'create_environ and create_scope decode the path with the same options', p.func('falcon.testing.helpers.create_scope'),
+              seen['falcon.testing.helpers.create_scope'][0], witness=['%s: unquote_plus=%r' % (k, v[1]) for k, v in seen.items()])
+
+
 def check(run):
     run.assume('whole-behaviour equality is not decided; the parity obligations between the hand-duplicated siblings are')
     run.assume('R4 (dispatch parity) = C03 R1 + C04 R3 + C05 R3/R4: decided by those checks, not re-evaluated here')
@@ -966,6 +1008,10 @@ def check(run):
     run.rule('R1', r1_override_completeness, 'no public ASGI request member reaches a base body that needs WSGI-only state', floor=60)
     run.rule('R2', r2_accessor_parity, 'accessor / constructor parity: escape sets, consulted headers, raised errors', floor=40)
     run.rule('R3', r3_constructor_parity, 'constructor parity: trailing slash, query-string options, content type', floor=10)
+    from . import c03 as _c03
+
+    run.rule('R4', _c03.r1_sibling_equal, 'dispatch parity: the two __call__s are event-language-equal over the middleware alphabet (shared with C03 R1)', floor=1)
+    run.rule('R9', r9_driver_path_decoding, 'both test drivers percent-decode the path identically (no plus-to-space)', floor=3)
     run.rule('R8', r8_ctor_definite_assignment, 'per-request attributes bound on every constructor path or immutable class default', floor=2)
     run.rule('R7', r7_render_sibling_stores, 'render siblings perform the same stores on the response', floor=2)
     run.rule('R6', r6_access_route_tail, 'access_route: peer appended under the same condition in both stacks', floor=1)
